@@ -1,7 +1,7 @@
 SPECIFICATION Spec
 CONSTANTS
   MaxItems = 3
-  SetSrcOn = {1, 2, 3, 4}
+  SetSrcOn = {1}
 VIEW View
 INVARIANTS InvItemsTyped InvWellTyped
 PROPERTIES ErrLeavesUnchanged SnapshotsStable OrderKept
